@@ -1,5 +1,5 @@
 (* C18 — vector/column lemmas for the DataSet model: map2, column minimum/maximum, affine images. *)
-From Coq Require Import ZArith List QArith Qcanon Bool Lia Lra Arith.
+From Coq Require Import ZArith List QArith Qcanon Bool Lia Lqa Arith.
 From SG Require Import Base.QcUtil Model.DataSet.
 Import ListNotations.
 Open Scope Qc_scope.
